@@ -409,15 +409,16 @@ Proof.
   { intros a b Hab. unfold gauss. apply Hf. rewrite Hab. reflexivity. }
   assert (Hm : leq (map (fun v => Beat.cemgil_acc (gauss fexp sigma) v est) (vars_prog fexp ref))
                    (map (fun v => Beat.cemgil_acc (gauss fexp sigma) v est) (Beat.variations ref))).
-  { pose proof (vars_prog_leq fexp ref) as Hv. induction Hv; cbn [map]; constructor; [apply cemgil_acc_leq; assumption|assumption]. }
+  { generalize (vars_prog_leq fexp ref). generalize (Beat.variations ref). generalize (vars_prog fexp ref). clear T.
+    induction 1; cbn [map]; constructor; [apply cemgil_acc_leq; assumption|assumption]. }
   unfold cemgil_on in T. unfold Beat.cemgil. destruct (Beat.validate ref est) as [[]|e]; cbn [bind Prelude.bind] in *; [|exact T].
   destruct (Beat.is_nil est || Beat.is_nil ref); [exact T|].
   destruct Hm as [|a a' l l' Ha Hl]; [exact T|].
   destruct (out_floats _) as [xs| |]; cbn [lift_pair out_eq] in *; try contradiction.
-  destruct T as [|x y xs' ys' Hx T']; constructor.
-  - destruct x; cbn [xeq] in *; try contradiction. rewrite Hx. exact Ha.
-  - destruct T' as [|x2 y2 xs2 ys2 Hx2 T2]; constructor; [|exact T2].
-    destruct x2; cbn [xeq] in *; try contradiction. rewrite Hx2. apply BeatProps.fold_Qmax_leq; assumption.
+  inversion T as [|x y xs' ys' Hx T' E1 E2]; subst. inversion T' as [|x2 y2 xs2 ys2 Hx2 T2 E3 E4]; subst. inversion T2; subst.
+  destruct x as [qx| | |]; cbn [xeq] in Hx; try contradiction. destruct x2 as [qx2| | |]; cbn [xeq] in Hx2; try contradiction.
+  constructor; [cbn [xeq]; rewrite Hx; exact Ha|]. constructor; [|constructor].
+  cbn [xeq]. rewrite Hx2. apply BeatProps.fold_Qmax_leq; assumption.
 Qed.
 
 (* the hypothesis of cemgil_tie is satisfiable (the documented default is 0.04) *)
